@@ -14,6 +14,7 @@
 #include <deque>
 #include <fcntl.h>
 #include <netinet/in.h>
+#include <sched.h>
 #include <string>
 #include <sys/epoll.h>
 #include <sys/eventfd.h>
@@ -157,6 +158,7 @@ struct Fd
   uint64_t gen = 0;
   // epoll
   std::vector<Reg> regs;
+  int spin = 0; // epoll: consecutive epoll_wait calls that returned events without blocking
   // eventfd
   uint64_t counter = 0;
   bool semaphore = false;
@@ -179,6 +181,7 @@ struct Fd
   std::deque<int> acceptq; // listener: indices of server-side endpoints not yet accepted
   bool accepted = true;    // server-side endpoint waiting in an accept queue has accepted=false
   std::string txlog;
+  std::string peerTxSaved; // copy of the peer endpoint's tap taken when the peer endpoint goes away
   uint64_t connId = 0;
   // udp
   std::deque<Dgram> dq;
@@ -504,6 +507,7 @@ void tcpDetach(int idx)
     int p = f.peer;
     Fd &pf = ST->fds[p];
     pf.peer = -1;
+    pf.peerTxSaved = f.txlog;
     if (!f.rbuf.empty() || f.lingerAbort)
     {
       // closing with unread data (or SO_LINGER 0): RST (Linux tcp_close)
@@ -809,6 +813,13 @@ std::string simk_txlog(int fd)
   Fd *f = get(fd);
   return f ? f->txlog : std::string();
 }
+std::string simk_peer_txlog(int fd)
+{
+  Fd *f = get(fd);
+  if (!f || f->peer < 0)
+    return f ? f->peerTxSaved : std::string();
+  return ST->fds[f->peer].txlog;
+}
 uint64_t simk_conn_id(int fd)
 {
   Fd *f = get(fd);
@@ -958,6 +969,24 @@ extern "C"
     }
     if (timeout > 0)
       deadline = mcint_now() + uint64_t(timeout) * 1000000ull;
+    // Fairness: a loop whose epoll_wait keeps returning at once (e.g. EPOLLOUT re-armed by EPOLL_CTL_MOD on a
+    // writable socket while a TLS handshake waits for the peer) is a busy-wait.  On a real machine the other
+    // threads run meanwhile; under the cooperative scheduler the spinner must give way, exactly like a yield.
+    if (epollReady(ep))
+    {
+      if (++ep->spin > 3)
+      {
+        sched_yield();
+        ep = get(epfd);
+        if (!ep || ep->gen != gen)
+        {
+          errno = EBADF;
+          return -1;
+        }
+      }
+    }
+    else
+      ep->spin = 0;
     mcint_block(epollReady, ep, deadline, "epoll_wait");
     ep = get(epfd);
     if (!ep || ep->gen != gen || ep->kind != K_EPOLL)
